@@ -486,7 +486,7 @@ void h_sum(void)
                        {'NMAX': 3, 'ZMAX': 3, 'VMASK': 1, 'VOFF': 0, 'CMASK': 3, 'COFF': 0, 'SORT': 0, 'CXC_NOCOVER': 1}],
     bound_text='all pairs of matrices up to 2x2, any pattern (unsorted, duplicates, empty rows), values in {0,1}, alpha,beta in 0..3; nnz <= 3 each with sort=false, nnz <= 2 each with sort=true (thorough: nnz <= 3 sorted; values 0..3; values and coefficients in [-3,4] with nnz <= 2; 3x3)',
     assumptions=A_BOUNDED + ['A-vals: quick variant restricts stored values to {0,1} (multilinearity argument in the unit source); ring = int32'],
-    replay='kernels', timeout=300,
+    replay='kernels', timeout=600,
     witness=wit('A', 'B') + ['w_alpha', 'w_beta', 'w_sort'],
 )
 RING_UNWINDSET = [(r'for\s*\(\s*Idx (i|ia)\b', 'NMAX+1'), (r'for\s*\(\s*Idx (j|ja|jb)\b', 'ZMAX+1'),
@@ -599,7 +599,7 @@ void h_spgemm_saad(void)
     bound_text='all compatible pairs A (n x m), B (m x k) with n,m,k <= 2, any pattern (unsorted, duplicates, empty rows), values in {0,1}; nnz <= 3 each with sort=false, nnz <= 2 each with sort=true (thorough: nnz <= 3 sorted; values 0..3; values in [-3,4] with nnz <= 2; 3x3 with nnz <= 2 -- 3x3 with nnz <= 3 does not finish in 2400 s)',
     assumptions=A_BOUNDED + ['A-vals: quick variants restrict stored values to {0,1}: the entries of C are multilinear in the stored values for each fixed pattern (no branch reads a value), and a multilinear polynomial is determined by its values on {0,1}^n; ring = int32',
                              'A-omp: the per-thread marker vector is the sequential one'],
-    replay='kernels', timeout=300,
+    replay='kernels', timeout=600,
     witness=wit('A', 'B') + ['w_sort'],
 )
 spgemm_saad.unwindset = RING_UNWINDSET
@@ -789,3 +789,8 @@ void h_transpose_adj(void)
     timeout=600,
 )
 UNITS.append(transpose_adjoint)
+
+# thorough-tier head room: the larger bounds of these units take 15-45 minutes of SAT time each on a loaded host (measured);
+# the thorough tier multiplies the unit timeout by VERIF_THOROUGH_TIMEOUT_FACTOR (8), the quick variants finish in seconds
+for _u in (transpose, sort_row, pointwise):
+    _u.timeout = max(_u.timeout, 600)
